@@ -38,6 +38,6 @@ def run(tier, seed):
     t0 = time.time()
     outs = run_cases("C05", cases(tier, seed), attribute=ATTR)
     return finish("C05", tier, seed, t0, outs, RULE,
-                  required_bits=["restart", "wait_with_concurrent_submitter", "suspend_cycle", "queued_while_suspended", "wait_predicate_polled"],
+                  required_bits=["restart", "wait_with_concurrent_submitter", "suspend_cycle", "queued_while_suspended", "wait_predicate_polled", "entry_keeps_working_after_finalize"],
                   assumptions=["life-cycle calls are issued from the main OS thread; nothing is submitted from outside after finalize()",
                                "'eventually returns' is judged as bounded progress (process watchdog)"])
